@@ -263,7 +263,8 @@ def judge_daily(c, rec):
             for i in np.nonzero(np.isnan(obs_in))[0]:
                 rows = np.nonzero(day_of == i)[0]
                 if c["meter_kept"]:
-                    mv[rows[: c["meter_kept"]]] = 1.5  # some readings survive, half or fewer of the day
+                    # some readings survive, half or fewer of the day (a 23-hour day keeps at most 11: 12 of 23 would be a valid day)
+                    mv[rows[: min(c["meter_kept"], len(rows) // 2)]] = 1.5
             ok_days = [i for i in range(1, len(idx) - 1) if not np.isnan(obs_in[i])]
             for i in rngm.choice(ok_days, min(c["meter_valid_partial"], len(ok_days)), replace=False):
                 rows = np.nonzero(day_of == i)[0]
